@@ -594,6 +594,16 @@ func runEqualEscapes(ctx *core.Ctx, id string) {
 		{`"<>&"`, `"\u003c\u003e\u0026"`, `"\u003C>&"`},
 		{`"/"`, `"\/"`, `"\u002f"`},
 		{`"u002f"`, `"\u0075002f"`},
+		// UTF-8 length boundaries, raw and escaped
+		{"\"\u007f\"", `"\u007f"`, `"\u007F"`},
+		{"\"\u0080\"", `"\u0080"`},
+		{"\"\u07ff\"", `"\u07ff"`, `"\u07FF"`},
+		{"\"\u0800\"", `"\u0800"`},
+		{"\"\uffff\"", `"\uffff"`},
+		{"\"\U00010000\"", `"\ud800\udc00"`},
+		{"\"\U0010FFFF\"", `"\udbff\udfff"`},
+		{"\"\u2028\"", `"\u2028"`},
+		{"\"\u2068\"", `"\u2068"`},
 	}
 	ctxs := []func(string) string{
 		func(x string) string { return x },
